@@ -86,10 +86,12 @@ def call(fn, *a, **k):
         name = '%s.%s.%s' % (type(fn.__self__).__module__, type(fn.__self__).__qualname__, getattr(fn, '__name__', '?'))
     try:
         r = fn(*a, **k)
-        CALL_LOG.append((name, 'return'))
+        if len(CALL_LOG) < 200:
+            CALL_LOG.append((name, 'return'))
         return ('return', r)
     except Exception as e:   # noqa
-        CALL_LOG.append((name, 'raise:' + type(e).__name__))
+        if len(CALL_LOG) < 200:
+            CALL_LOG.append((name, 'raise:' + type(e).__name__))
         return ('raise', e)
 
 
